@@ -136,6 +136,9 @@ def check_numeric(out: Outcome, rng, ref, test, lines, expect) -> None:
     g = math.gcd(n, m)
     lines.append(f"t2 kuiper {n} {m} " + " ".join(f2h(v) for v in ref + test))
     expect.append(("kuiper", (round(V * n * m / g), round(ks[0] * n * m / g)), rep))
+    # KuiperTest AS CODED (statistic = KS D, p-value = the Paltani / Stephens series, NaN and values above 1 included): `Kuiper.kuiper` of the model
+    lines.append(f"t2 kuiperp {n} {m} " + " ".join(f2h(v) for v in ref + test))
+    expect.append(("kuiperp", ks, rep))
     out.case({"n": n, "m": m, "tied": tied, "h": hash(tuple(ref + test)) & 0xFFFFFF})
 
 
@@ -206,6 +209,9 @@ def run(out: Outcome) -> None:
         elif kind == "kuiper":
             v, d, _, _ = map(int, g.split(" "))
             ok = (v, d) == val
+        elif kind == "kuiperp":
+            ms, mp = (h2f(t[1:]) for t in g.split(" "))
+            ok = close(ms, val[0], 1e-12) and ((math.isnan(mp) and math.isnan(val[1])) or (math.isinf(mp) and mp == val[1]) or close(mp, val[1], 1e-7))
         elif kind == "chi2":
             ok = close(h2f(g[1:]), val, 1e-9)
         elif kind == "fwd":
